@@ -605,7 +605,7 @@ def fam_cluster(tier, base):
     runs, faults, crashes = cnt('"ev":"Run"'), cnt('"class":"injected"'), cnt('"ev":"Crash"')
     return dict(trace=trace, viols=viols, states=r.distinct, transitions=r.generated, configs=[cfg, "Trace_Cluster.cfg"], window=80,
                 traces={"*": runs, "C14": crashes}, samples={"*": [json.loads(x) for x in lines[:2]]},
-                nontrivial={"C10": runs, "C11": faults, "C12": cnt('"kind":"create","op":"op"'), "C13": cnt('"obs":['), "C14": crashes, "C20": cnt('"target":"lock"'), "C22": runs},
+                nontrivial={"C10": runs, "C11": faults, "C12": cnt('"kind":"create","op":"op"'), "C13": cnt('"obs":['), "C14": crashes, "C20": cnt('"target":"lock"'), "C22": runs, "C30": cnt('"ev":"Call","kind":"lambda"')},
                 notes="%d TLC-enumerated scenarios (node layout x pre-deployed workloads x operation); each run fault-free and then with every %s single-fault / crash placement among its external calls: %d runs, %d injected failures, %d crashes followed by recovery in a fresh core instance" % (len(sel), "%d-th" % every if every > 1 else "", runs, faults, crashes))
 
 
@@ -618,6 +618,7 @@ prop("C11", "cluster", "same runs; an operation (or per-workload part) that repo
 prop("C12", "cluster", "create scenarios (4 strategies x counts x requests x include lists x pre-states) fault-free and with every sampled fault: stream closes, one error or one message per planned instance (planned = sum of the allocation calls), each success recorded + started + placed as reported, failures leave nothing; non-trivial = create runs", _A_CL)
 prop("C13", "cluster", "create scenarios: after EVERY external call of the deployment the real deploy status and the recorded workloads are read (under the gate) and compared with prior + planned; after return no marker of the application remains; non-trivial = observations", _A_CL + ["etcd store only in this family; the redis counting rule is covered by the store family (C23) through the same reference"])
 prop("C14", "cluster", "create / remove / replace scenarios with a crash before each sampled external call, then recovery in a fresh instance; non-trivial = crashes", _A_CL)
+prop("C30", "cluster", "run-and-wait scenarios: count 1-3 x bound/unbound request x stdin or not x engine outcome {exit 0, exit 3, logs fail, wait fails, attach fails} over the node layouts; message stream + state after the stream closed; non-trivial = run-and-wait runs", _A_CL)
 prop("C22", "cluster", "referential consistency predicates on every pre- and post-state of the runs (sequential and faulted); concurrent histories are the cluster_conc family; non-trivial = runs", _A_CL)
 
 
